@@ -158,11 +158,13 @@ func c30IsTimeframe(tf int64) bool {
 	return false
 }
 
-// yearOK mirrors Corr/C30.year_okb on a dumped table: both ends of the year regular, same offset.
+// yearOK mirrors TimeIndex.year_okb on a dumped table: both ends of the year regular, same offset.
 func c30YearOK(tb tzd.Table, year int) bool {
 	l0 := time.Date(year, 1, 1, 0, 0, 0, 0, time.UTC).Unix()
 	l1 := time.Date(year+1, 1, 1, 0, 0, 0, 0, time.UTC).Unix()
-	return tb.EdgeOK(l0) && tb.EdgeOK(l1) && tb.OffsetAt(l0) == tb.OffsetAt(l1)
+	o0, o1 := tb.DayOff(l0/86400), tb.DayOff(l1/86400)
+	okb := func(o int64) bool { return -86400 <= o && o <= 86400 }
+	return tb.CrossOK(l0) && tb.CrossOK(l1) && okb(o0) && okb(o1) && o0 == o1
 }
 
 func c30Run(raw json.RawMessage) (res Result, err error) {
@@ -239,13 +241,13 @@ func c30Run(raw json.RawMessage) (res Result, err error) {
 		if lsec < 0 && lsec%86400 != 0 {
 			d--
 		}
-		dayOK = ztab.EdgeOK(d*86400) && ztab.EdgeOK((d+1)*86400)
+		dayOK = ztab.CrossOK(d*86400) && ztab.CrossOK((d+1)*86400)
 	}
 	switch {
 	case !isTF || !yearsOK || in.Rec <= 0:
 		res.InDomain = false
 	case isDay:
-		res.InDomain = zoneOK && dayOK
+		res.InDomain = zoneOK && localOK && dayOK
 	default:
 		res.InDomain = zoneOK && localOK
 	}
